@@ -1,6 +1,10 @@
 """(T) atomicity translator: statement order of every class's update(): does any validation
 (raise statement, call of a `_*check*` helper or of a functional `_*_update*` helper, which
 validate their input) occur after the first write to the object's state?
+A state write is an assignment / augmented assignment / in-place method call whose target is a registered
+state `self.<f>` (or an entry of it) — directly or through a LOCAL that holds the state object: `c = self.f`,
+`cs = (self.f, self.g)`, `for c, d in zip(cs, deltas): c[i] += d` write the states just as the unrolled
+`self.f[i] += ...; self.g[i] += ...` do (`aliases`).
 Regenerates lean/TE/Gen/Atomicity.lean each run."""
 from __future__ import annotations
 import ast
@@ -8,8 +12,65 @@ from ..common import LEAN
 from ..registry import SPECS, new_metric, fresh_cfg
 from .states import class_methods
 
+# builtins whose result contains / iterates over the very objects they are given
+CONTAINER_CALLS = {"zip", "enumerate", "reversed", "tuple", "list", "iter", "sorted"}
+INPLACE_METHODS = ("append", "extend", "add_", "copy_")
 
-def is_state_write(node, regs):
+
+def _self_reg(x, regs):
+    return isinstance(x, ast.Attribute) and isinstance(x.value, ast.Name) and x.value.id == "self" and (x.attr in regs or x.attr == "next_inserted")
+
+
+def holds_state(e, regs, aliases):
+    """can the value of expression `e` be (a container of / a view of) the object of a registered state?"""
+    if _self_reg(e, regs):
+        return True
+    if isinstance(e, ast.Name):
+        return e.id in aliases
+    if isinstance(e, (ast.Tuple, ast.List)):
+        return any(holds_state(x, regs, aliases) for x in e.elts)
+    if isinstance(e, ast.Starred):
+        return holds_state(e.value, regs, aliases)
+    if isinstance(e, ast.Subscript):
+        return holds_state(e.value, regs, aliases)
+    if isinstance(e, ast.IfExp):
+        return holds_state(e.body, regs, aliases) or holds_state(e.orelse, regs, aliases)
+    if isinstance(e, ast.Call) and isinstance(e.func, ast.Name):
+        if e.func.id in CONTAINER_CALLS:
+            return any(holds_state(a, regs, aliases) for a in e.args)
+        if e.func.id == "getattr" and e.args and isinstance(e.args[0], ast.Name) and e.args[0].id == "self":
+            return True
+    return False
+
+
+def aliases(bodies, regs):
+    """names of locals that may hold (a container of) a state object somewhere in the given statement lists
+    (flow-insensitive fixpoint over assignments and loop targets)."""
+    al = set()
+    nodes = [n for b in bodies for s in b for n in ast.walk(s)]
+    changed = True
+    while changed:
+        changed = False
+        for n in nodes:
+            pairs = []
+            if isinstance(n, ast.Assign):
+                pairs = [(t, n.value) for t in n.targets]
+            elif isinstance(n, ast.AnnAssign) and n.value is not None:
+                pairs = [(n.target, n.value)]
+            elif isinstance(n, (ast.For, ast.comprehension)):
+                pairs = [(n.target, n.iter)]
+            elif isinstance(n, ast.NamedExpr):
+                pairs = [(n.target, n.value)]
+            for tgt, val in pairs:
+                if holds_state(val, regs, al):
+                    for x in ast.walk(tgt):
+                        if isinstance(x, ast.Name) and x.id != "self" and x.id not in al:
+                            al.add(x.id)
+                            changed = True
+    return al
+
+
+def is_state_write(node, regs, al=frozenset()):
     tgts = []
     if isinstance(node, ast.Assign):
         tgts = node.targets
@@ -17,12 +78,18 @@ def is_state_write(node, regs):
         tgts = [node.target]
     for t in tgts:
         for tt in ast.walk(t):
-            if isinstance(tt, ast.Attribute) and isinstance(tt.value, ast.Name) and tt.value.id == "self" and (tt.attr in regs or tt.attr == "next_inserted"):
+            if _self_reg(tt, regs):
                 return True
+            # an entry of a state object reached through a local (`c[i] = ..`, `c[i] += ..`)
+            if isinstance(tt, ast.Subscript) and isinstance(tt.value, ast.Name) and tt.value.id in al:
+                return True
+    if isinstance(node, ast.AugAssign) and isinstance(node.target, ast.Name) and node.target.id in al:
+        return True                     # `c += x` on a tensor / list is in place
     if isinstance(node, ast.Expr) and isinstance(node.value, ast.Call):
         f = node.value.func
-        if isinstance(f, ast.Attribute) and f.attr in ("append", "extend", "add_", "copy_") and any(
-                isinstance(x, ast.Attribute) and isinstance(x.value, ast.Name) and x.value.id == "self" and x.attr in regs for x in ast.walk(f.value)):
+        if isinstance(f, ast.Attribute) and f.attr in INPLACE_METHODS and any(
+                (isinstance(x, ast.Attribute) and isinstance(x.value, ast.Name) and x.value.id == "self" and x.attr in regs)
+                or (isinstance(x, ast.Name) and x.id in al) for x in ast.walk(f.value)):
             return True
         if isinstance(f, ast.Name) and f.id == "setattr":
             return True
@@ -71,13 +138,17 @@ def facts():
         seq = linear(meths["update"].body)
         # inline self-helpers one level
         flat = []
+        helpers = set()
         for s in seq:
             helper = None
             for x in ast.walk(s):
                 if isinstance(x, ast.Call) and isinstance(x.func, ast.Attribute) and isinstance(x.func.value, ast.Name) and x.func.value.id == "self" and x.func.attr in meths and x.func.attr != "update":
                     helper = x.func.attr
             flat += linear(meths[helper].body) if helper else [s]
-        first_write = next((i for i, s in enumerate(flat) if is_state_write(s, regs)), None)
+            if helper:
+                helpers.add(helper)
+        al = aliases([meths["update"].body] + [meths[h].body for h in sorted(helpers)], regs)
+        first_write = next((i for i, s in enumerate(flat) if is_state_write(s, regs, al)), None)
         after = first_write is not None and any(validates(s) for s in flat[first_write + 1:])
         rows.append((spec.name, bool(after)))
     return rows
